@@ -41,6 +41,12 @@ impl AuthenticationAdapter for MojangAdapter {
         let url = format!(
             "https://sessionserver.mojang.com/session/minecraft/hasJoined?username={username}&serverId={hash}"
         );
+        // verification hook: replace the session server origin, path and query stay as built above
+        #[cfg(feature = "verif-hooks")]
+        let url = match std::env::var("PASSAGE_VERIF_SESSION_BASE") {
+            Ok(base) => url.replacen("https://sessionserver.mojang.com", &base, 1),
+            Err(_) => url,
+        };
         let profile = HTTP_CLIENT
             .get(&url)
             .send()
